@@ -73,7 +73,13 @@ def runFiles (O : Oracles) (qy : Query) (idx : JoinIndex) (withResult : Bool) (s
 
 def hasFailed (ro : RunOut) : Bool := ro.error.isSome || ro.panicked || ro.skipped.isSome
 
-/-- the joined file is read completely (an unreadable line is an error) before the first input line -/
+/-- `execute_joined_table`: the joiner column of the queried table is checked first, then the joined file is
+read completely (an unreadable line is an error) before the first input line -/
+def setupJoin (t : TableInfo) (j : JoinInfo) (load : Outcome JoinIndex) : Outcome JoinIndex :=
+  match indexOf? t.columns j.joinerColumn with
+  | none => .error .columnNotFound
+  | some _ => load
+
 def loadJoinFile (j : JoinInfo) (lines : List FileLine) : Outcome JoinIndex :=
   if lines.any (fun fl => !fl.readable) then
     -- rows before the unreadable line were indexed, but the error aborts the run
@@ -83,7 +89,7 @@ def loadJoinFile (j : JoinInfo) (lines : List FileLine) : Outcome JoinIndex :=
 /-- `FileExecutor::execute` -/
 def runBatch (O : Oracles) (qy : Query) (joined : List FileLine) (files : List (List FileLine)) (stopAt : Option Nat) : RunOut :=
   let idxO : Outcome JoinIndex := match qy.join with
-    | some j => loadJoinFile j joined
+    | some j => setupJoin qy.table j (loadJoinFile j joined)
     | none => .ok []
   match idxO with
   | .ok idx =>
